@@ -207,4 +207,90 @@ theorem apply_refines (F : Py.Fld K) (hF : ∀ a b : K, F.div a b = a / b) (ids 
   simp only [j0, j1, j2, Py.finish, Option.map_some]
   simp [colX, colY, colZ, mapPts, applyPoint, mapply, dotRow_eq_dotK]
 
+/-! ### `AffineTransform.__call__` -/
+
+/-- `np.nonzero(pid == -1)[0][0]`: the position of the FIRST row whose parent is −1 -/
+theorem nonzeroFrom_eqMask (l : List Int) : ∀ (k : Int), (-1) ∈ l →
+    Py.idx (Py.nonzeroFrom k (Py.eqMask l (-1))) 0 = some (k + (l.idxOf (-1) : Nat)) := by
+  induction l with
+  | nil => intro k h; simp at h
+  | cons a l ih =>
+    intro k h
+    by_cases ha : a = -1
+    · subst ha
+      simp [Py.eqMask, Py.nonzeroFrom, Py.idx, Py.normIdx]
+    · have hl : (-1) ∈ l := by
+        rcases List.mem_cons.1 h with h | h
+        · exact absurd h.symm ha
+        · exact h
+      have := ih (k + 1) hl
+      simp only [Py.eqMask] at this
+      have hne : ¬ (a == -1) = true := by simpa using ha
+      simp only [Py.eqMask, List.map_cons, ha, decide_false, Py.nonzeroFrom, Bool.false_eq_true, if_false, this,
+        List.idxOf_cons, hne, cond_false]
+      congr 1
+      push_cast
+      ring
+
+theorem root_index (pids : List Int) (h : (-1) ∈ pids) :
+    Py.idx (Py.nonzero (Py.eqMask pids (-1))) 0 = some ((pids.idxOf (-1) : Nat) : Int) := by
+  simpa [Py.nonzero] using nonzeroFrom_eqMask pids 0 h
+
+/-- `center` other than `"root"` / `"soma"` (in particular `"origin"`): `__call__` applies `self.tm` as it is -/
+theorem call_origin (F : Py.Fld K) (center : String) (h1 : center ≠ "root") (h2 : center ≠ "soma") (tm0 : List (List K))
+    (ids pids types : List Int) (xs ys zs rs : List K) :
+    affine_call F center tm0 ids pids types xs ys zs rs = affine_apply F ids pids types xs ys zs rs tm0 := by
+  simp only [affine_call, affine_call.body, Py.seq, Py.bind, h1, h2, decide_false, Bool.or_self, Bool.false_eq_true, if_false]
+  cases affine_apply F ids pids types xs ys zs rs tm0 <;> rfl
+
+/-- `center ∈ {"root", "soma"}`: `__call__` applies `self.tm` conjugated by the translation to the root (the first row whose parent
+is −1; without such a row the call raises: `Py.idx … = none`) -/
+theorem call_root (F : Py.Fld K) (center : String) (hc : center = "root" ∨ center = "soma") (tm0 : List (List K)) (h44 : Is44 tm0)
+    (ids pids types : List Int) (rs : List K) (pts : List (Pt K)) (hroot : (-1) ∈ pids) (root : Pt K)
+    (hr : pts[pids.idxOf (-1)]? = some root) :
+    affine_call F center tm0 ids pids types (colX pts) (colY pts) (colZ pts) rs
+      = affine_apply F ids pids types (colX pts) (colY pts) (colZ pts) rs (aboutRoot tm0 root.1 root.2.1 root.2.2) := by
+  have hcen : (decide (center = "root") || decide (center = "soma")) = true := by
+    rcases hc with rfl | rfl <;> decide
+  have hk : pids.idxOf (-1) < pts.length := by
+    by_contra hn
+    rw [List.getElem?_eq_none (by omega)] at hr
+    exact absurd hr (by simp)
+  have hrow : Py.idx (pts.map fun p => [p.1, p.2.1, p.2.2]) ((pids.idxOf (-1) : Nat) : Int) = some [root.1, root.2.1, root.2.2] := by
+    rw [Py.idx_nat _ _ (by simpa using hk)]
+    simp [hr]
+  obtain ⟨x, y, z⟩ := root
+  have i3 : Py.idx [x, y, z] 0 = some x ∧ Py.idx [x, y, z] 1 = some y ∧ Py.idx [x, y, z] 2 = some z := by
+    simp [Py.idx, Py.normIdx]
+  have d1 := dot2_eq_mmul (translate3d x y z) tm0 (is44_translate3d x y z) h44
+  have d2 := dot2_eq_mmul (mmul (translate3d x y z) tm0) (translate3d (-x) (-y) (-z)) (is44_mmul _ _ (is44_translate3d x y z))
+    (is44_translate3d _ _ _)
+  simp only [affine_call, affine_call.body, Py.seq, Py.bind, hcen, if_true, root_index pids hroot, xyz_refines, hrow, i3.1, i3.2.1,
+    i3.2.2, translate3d_refines, fneg_eq, d1, d2, aboutRoot]
+  cases affine_apply F ids pids types (colX pts) (colY pts) (colZ pts) rs
+    (mmul (mmul (translate3d x y z) tm0) (translate3d (-x) (-y) (-z))) <;> rfl
+
+/-- **`AffineTransform.__call__` ∘ `apply`** (generated), `center ∈ {root, soma}`: row `i` moves to
+`applyPoint (aboutRoot tm root) (xᵢ, yᵢ, zᵢ)` where `root` is the position of the FIRST row whose parent is −1;
+ids, parents, types, radii (and the number of rows) are unchanged. -/
+theorem call_root_refines (F : Py.Fld K) (hF : ∀ a b : K, F.div a b = a / b) (center : String) (hc : center = "root" ∨ center = "soma")
+    (tm0 : List (List K)) (h44 : Is44 tm0) (ids pids types : List Int) (rs : List K) (pts : List (Pt K)) (hroot : (-1) ∈ pids)
+    (root : Pt K) (hr : pts[pids.idxOf (-1)]? = some root)
+    (hw : ∀ p ∈ pts, wOf (aboutRoot tm0 root.1 root.2.1 root.2.2) p ≠ 0) :
+    affine_call F center tm0 ids pids types (colX pts) (colY pts) (colZ pts) rs
+      = some (ids, pids, types, colX (mapPts (aboutRoot tm0 root.1 root.2.1 root.2.2) pts),
+          colY (mapPts (aboutRoot tm0 root.1 root.2.1 root.2.2) pts), colZ (mapPts (aboutRoot tm0 root.1 root.2.1 root.2.2) pts), rs) := by
+  rw [call_root F center hc tm0 h44 ids pids types rs pts hroot root hr]
+  have hne : pts ≠ [] := by rintro rfl; simp at hr
+  exact apply_refines F hF ids pids types rs pts hne _ (is44_mmul _ _ (is44_mmul _ _ (is44_translate3d _ _ _))) hw
+
+/-- … and for any other `center` (`"origin"`): row `i` moves to `applyPoint tm (xᵢ, yᵢ, zᵢ)`. -/
+theorem call_origin_refines (F : Py.Fld K) (hF : ∀ a b : K, F.div a b = a / b) (center : String) (h1 : center ≠ "root")
+    (h2 : center ≠ "soma") (tm0 : List (List K)) (h44 : Is44 tm0) (ids pids types : List Int) (rs : List K) (pts : List (Pt K))
+    (hne : pts ≠ []) (hw : ∀ p ∈ pts, wOf tm0 p ≠ 0) :
+    affine_call F center tm0 ids pids types (colX pts) (colY pts) (colZ pts) rs
+      = some (ids, pids, types, colX (mapPts tm0 pts), colY (mapPts tm0 pts), colZ (mapPts tm0 pts), rs) := by
+  rw [call_origin F center h1 h2]
+  exact apply_refines F hF ids pids types rs pts hne tm0 h44 hw
+
 end RefineAffine
